@@ -308,7 +308,7 @@ static STORED: [u8; 36] = [0, 0, 0, 0, 0, 0, 0, 0, 0, 0, 0, 0, 0, 0, 0, 0, b'{',
 //@ timeout: 900
 //@ mem: 10
 //@ kernel: DecryptBackend::{decrypt, decrypt_file, read_encrypted_full}, DecryptReadBackend::{read_encrypted_from_partial, read_encrypted_partial}
-//@ bound: a stored 36-byte file/blob (4 payload bytes in a 16+16 byte frame) served by a mock store; the key's MAC verdict is a symbolic flag; read through one of read_encrypted_full / read_encrypted_partial (symbolic offset/length inside or outside the file) / read_encrypted_from_partial with symbolic recorded uncompressed length (None / any u32)
+//@ bound: a stored 36-byte file/blob (4 payload bytes in a 16+16 byte frame) served by a mock store; the key's MAC verdict: rejects (this harness) / accepts (c04_accepting_key_reads_check_lengths); read through one of read_encrypted_full / read_encrypted_partial (symbolic offset/length inside or outside the file) / read_encrypted_from_partial with symbolic recorded uncompressed length (None / any u32)
 //@ oracle: if the key rejects, every read path returns Err - never raw or partial bytes; if the key accepts, a result is returned only when the recorded uncompressed length matches the decompressed length, otherwise Err; no panic for any offset/length
 //@ stub: CryptoKey = FlagKey (MAC verdict is a harness flag: the AEAD's tamper detection is assumed, its strength is outside); zstd::stream::decode_all -> 0xFD framing; Backtrace::capture
 //@ outside: cryptographic strength of Poly1305-AES, nonce uniqueness, key files / passwords / scrypt
@@ -320,10 +320,32 @@ static STORED: [u8; 36] = [0, 0, 0, 0, 0, 0, 0, 0, 0, 0, 0, 0, 0, 0, 0, 0, b'{',
 #[kani::stub(crate::error::RusticError::attach_context, crate::error::verif_harness::stub_attach_context)]
 #[kani::stub(crate::error::RusticError::attach_source, crate::error::verif_harness::stub_attach_source)]
 #[kani::stub(zstd::stream::decode_all, crate::error::verif_harness::stub_decode_all)]
-pub(crate) fn c04_decrypt_failure_is_read_failure() {
+pub(crate) fn c04_decrypt_failure_is_read_failure() { reject_check(true); }
+
+//@ harness: c04_accepting_key_reads_check_lengths
+//@ prop: C04 C05
+//@ tier: quick
+//@ timeout: 900
+//@ mem: 10
+//@ kernel: as c04_decrypt_failure_is_read_failure
+//@ bound: as c04_decrypt_failure_is_read_failure with a key that accepts
+//@ oracle: a result is returned only for complete frames inside the file and only when the recorded uncompressed length matches; its length is the recorded one
+//@ stub: as c04_decrypt_failure_is_read_failure
+#[kani::proof]
+#[kani::unwind(40)]
+#[kani::stub(std::backtrace::Backtrace::capture, crate::error::verif_harness::stub_backtrace_capture)]
+#[kani::stub(alloc::fmt::format, crate::error::verif_harness::stub_format)]
+#[kani::stub(crate::error::RusticError::new, crate::error::verif_harness::stub_rustic_new)]
+#[kani::stub(crate::error::RusticError::attach_context, crate::error::verif_harness::stub_attach_context)]
+#[kani::stub(crate::error::RusticError::attach_source, crate::error::verif_harness::stub_attach_source)]
+#[kani::stub(zstd::stream::decode_all, crate::error::verif_harness::stub_decode_all)]
+pub(crate) fn c04_accepting_key_reads_check_lengths() { reject_check(false); }
+
+/// the key's verdict is concrete per harness (a symbolic verdict merges the Ok and Err worlds of `decrypt`:
+/// no result in 15 min); everything else is symbolic
+fn reject_check(reject: bool) {
     let rec = Arc::new(RecBe::new(&STORED));
     let be = DecryptBackend::new(rec.clone() as Arc<dyn WriteBackend>, FlagKey);
-    let reject: bool = kani::any();
     REJECT.store(reject, SeqCst);
     let id = vh::mk_id(1);
     let which: u8 = kani::any();
@@ -354,8 +376,8 @@ pub(crate) fn c04_decrypt_failure_is_read_failure() {
             std::mem::forget(r); ok }
     };
     if reject { assert!(!ok); }
-    kani::cover!(reject, "key rejects");
-    kani::cover!(!reject && ok && which == 2, "compressed blob accepted with the right length");
-    kani::cover!(!reject && !ok && which == 2, "wrong recorded length refused");
+    kani::cover!(reject || (ok && which == 2), "compressed blob accepted with the right length (accepting key)");
+    kani::cover!(reject || (!ok && which == 2), "wrong recorded length refused (accepting key)");
+    kani::cover!(!reject || which == 1, "rejecting key: partial read fails");
     std::mem::forget(be); std::mem::forget(rec);
 }
